@@ -1035,6 +1035,75 @@ func (s *Script) Render(logic string, produceModels bool) string {
 		order = append(order, t)
 	}
 	all := append([]*Term{}, s.Asserts...)
+	// embedded sub-objects: sub!K1(x) and sub!K2(y) are different addresses when K1 != K2 (different
+	// fields), and a sub-object is not its enclosing object. Stated for the ground terms that occur.
+	{
+		var subs []*Term
+		seenS := map[*Term]bool{}
+		allBound := map[*Term]bool{}
+		var collect func(t *Term)
+		collect = func(t *Term) {
+			if seenS[t] {
+				return
+			}
+			seenS[t] = true
+			for _, b := range t.Bnd {
+				allBound[b] = true
+			}
+			for _, a := range t.Args {
+				collect(a)
+			}
+		}
+		for _, a := range all {
+			collect(a)
+		}
+		bmemo := map[*Term]bool{}
+		var mb func(t *Term) bool
+		mb = func(t *Term) bool {
+			if r, ok := bmemo[t]; ok {
+				return r
+			}
+			r := allBound[t]
+			for _, a := range t.Args {
+				if r {
+					break
+				}
+				r = mb(a)
+			}
+			bmemo[t] = r
+			return r
+		}
+		seenS = map[*Term]bool{}
+		var find func(t *Term)
+		find = func(t *Term) {
+			if seenS[t] {
+				return
+			}
+			seenS[t] = true
+			if t.Op == "app" && strings.HasPrefix(t.Name, "sub!") && !mb(t) {
+				subs = append(subs, t)
+			}
+			for _, a := range t.Args {
+				find(a)
+			}
+		}
+		for _, a := range all {
+			find(a)
+		}
+		if len(subs) > 1 && len(subs) <= 40 {
+			for i := 0; i < len(subs); i++ {
+				for j := i + 1; j < len(subs); j++ {
+					if subs[i].Name != subs[j].Name {
+						all = append(all, Not(Eq(subs[i], subs[j])))
+					}
+				}
+			}
+		}
+		for _, x := range subs {
+			all = append(all, Not(Eq(x, x.Args[0])))
+		}
+		s.Asserts = all
+	}
 	all = append(all, s.GetVals...)
 	for _, a := range all {
 		walk(a)
